@@ -65,6 +65,12 @@ def render(t, n):
         return S + "var x=0;" + "x=x+1;" * n + " switch (5) { default: x=x+7; case 0: x=x+0 } x"
     if t == "while_continue_labelled":
         return S + "var x=0,i=0; outer: while (i<2) { i=i+1; var j=0; while (j<1) { j=j+1; " + "x=x+1;" * n + " continue outer } } x"
+    if t.startswith("swd_"):
+        kind = t[4:]
+        d = {"true": "true", "false": "false", "str1": "'1'", "one": "1", "negzero": "-0", "nan": "NaN", "null": "null", "undef": "undefined",
+             "float1": "2 / 2", "strs1": "'s1'", "cmp": "1 < 2"}[kind]
+        cases = "".join("case %d: return 'c%d';" % (i, i) for i in range(n)) + "".join("case 's%d': return 't%d';" % (i, i) for i in range(3))
+        return S + "function pick(d){ switch (d) { %s default: return 'none'; } } pick(%s)" % (cases, d)
     if t.startswith("mx_"):
         _, form, k, where = t.split("_", 3)
         k = int(k)
@@ -133,7 +139,12 @@ _TABLES = None
 def driver(case, api):
     global _TABLES
     if case.get("kind") == "tables":
-        t = bytecode.decoder_tables()
+        try:
+            t = bytecode.decoder_tables()
+        except Exception as e:
+            # the interpreter loops no longer have the shape the extraction knows (e.g. the operand decoding was moved into a
+            # helper): the static half is skipped and said so in the evidence; the dynamic sweep is judged as always
+            return {"id": case["id"], "tables": None, "why": "%s: %s" % (type(e).__name__, str(e)[:200])}
         return {"id": case["id"], "tables": {"exec": t["_execute"], "cbs": [t["others"][k] for k in sorted(t["others"])],
                                              "cbnames": sorted(t["others"]), "emit": t["emitter"]}}
     src = render(case["t"], case["n"])
@@ -148,7 +159,7 @@ def driver(case, api):
     if case.get("export"):
         try:
             if _TABLES is None:
-                _TABLES = bytecode.decoder_tables()
+                _TABLES = bytecode.decoder_tables()      # raises when the tables cannot be extracted: no export
             fs = bytecode.export(src, _TABLES, with_index=False)
             res["funcs"] = [{"fid": f["fid"], "nbytes": f["nbytes"], "starts": [i["at"] for i in f["instrs"]],
                              "jumps": [{"at": i["at"], "arg": i["arg"]} for i in f["instrs"] if i["len"] == 3]}
